@@ -325,6 +325,59 @@ func invalidArgs(g G, class string) []string {
 	return nil
 }
 
+// c10Prefix: every invalid command line of a fixed list on a fixed world,
+// on both engines, so that no class of invalid input is left to chance.
+func c10Prefix(c *Ctx) (*Scenario, *Violation) {
+	w := &World{Layout: "loose", Head: "ref: refs/heads/main"}
+	blob := w.Add(NewObject(KBlob, []byte("x\n")))
+	tree := w.Add(NewObject(KTree, EncodeTree([]TreeEntry{{Mode: 0o100644, Name: "f", OID: blob.ID}})))
+	var prev string
+	for i := 0; i < 3; i++ {
+		cs := CommitSpec{Tree: tree.ID, Author: ident("A", int64(1000+i), "+0000"), Committer: ident("C", int64(1000+i), "+0000"), Message: fmt.Sprintf("c%d\n", i)}
+		if prev != "" {
+			cs.Parents = []string{prev}
+		}
+		prev = w.Add(NewObject(KCommit, EncodeCommit(cs))).ID
+	}
+	tag := w.Add(NewObject(KTag, EncodeTag(TagSpec{Object: prev, Type: KCommit, Tag: "v1", Tagger: ident("T", 1003, "+0000"), Message: "v1\n"})))
+	w.Refs = []Ref{{Name: "refs/heads/main", OID: prev}, {Name: "refs/tags/v1", OID: tag.ID}}
+	// a well-formed object id that names nothing, a real commit id with one digit changed
+	ghost := prev[:39] + map[bool]string{true: "0", false: "1"}[prev[39] != '0']
+	lines := map[string][][]string{
+		"bad-threshold":    {{"--threshold=abc"}, {"--threshold="}, {"--threshold=1,5"}, {"--threshold=0x"}, {"--threshold", "--"}},
+		"bad-names":        {{"--names=bogus"}, {"--names="}, {"--names=FULL"}, {"--names=sha256"}},
+		"bad-json-version": {{"--json", "--json-version=3"}, {"--json", "--json-version=0"}, {"--json", "--json-version=-1"}, {"--json", "--json-version=x"}, {"--json", "--json-version=1.5"}},
+		"unknown-flag":     {{"--nonesuch"}, {"--includ"}, {"-x"}, {"--no-json"}},
+		"bad-regexp":       {{"--include", "/[/"}, {"--exclude", "/(/"}, {"--include", "/a{2,1}/"}, {"--exclude", "/*/"}, {"--include", "/\\/"}, {"--include-regexp", "["}, {"--exclude-regexp", "("}},
+		"undefined-group":  {{"--include=@nosuchgroup"}, {"--exclude=@nope"}, {"--include=@"}, {"--refgroup=nosuch"}},
+		"bad-root": {{"nosuchref"}, {"refs/heads/nonexistent"}, {"0000000000000000000000000000000000000001"}, {ghost}, {"main", ghost}, {ghost, "main"}, {"--branches", ghost},
+			{"HEAD~99999"}, {"deadbeef"}, {":"}, {"@{-1}"}, {"main", "nosuchref"}, {"--", "no such thing"}, {"--", "refs/tags/none^{tree}"}, {"--", "HEAD:nonexistent/path"}, {"main:nonexistent"}, {"v1^{blob}"}},
+		"bad-bool":      {{"--progress=maybe"}, {"--branches=perhaps"}, {"--verbose=2x"}, {"--critical=no!"}, {"--no-tags=x"}},
+		"missing-value": {{"--include"}, {"--threshold"}, {"--names"}, {"--json-version"}, {"--exclude-regexp"}, {"--refgroup"}},
+	}
+	var classes []string
+	for k := range lines {
+		classes = append(classes, k)
+	}
+	sort.Strings(classes)
+	n := 0
+	for _, class := range classes {
+		for _, args := range lines[class] {
+			for _, pre := range [][]string{nil, {"--json"}} {
+				inv := Invocation{Args: append(append([]string{"--no-progress"}, pre...), args...), Cwd: "top"}
+				sc := &Scenario{Format: 1, Property: "C10", Engine: "A", World: w, Inv: inv, Plan: Plan{},
+					Params: c10Params{Mode: "invalid", Invalid: class, EngineB: true}}
+				if v := judgeC10(c, sc); v != nil {
+					return sc, v
+				}
+				n++
+			}
+		}
+	}
+	c.Stats.Exhaustive[fmt.Sprintf("%d invalid command lines (9 classes, table and --json) on a fixed world, each on the in-process engine and on the real binary with real git", n)] = true
+	return nil, nil
+}
+
 func checkC10(c *Ctx, rt *rapid.T) {
 	g := G{rt}
 	// an unbiased choice of mode (rapid's own integer draws favour small values)
@@ -858,7 +911,20 @@ func judgeC10(c *Ctx, sc *Scenario) *Violation {
 		c.Stats.Evaluations++
 		c.Stats.Nontrivial[sc.Hash()] = true
 		c.Stats.FaultsFired["invalid-input:"+p.Invalid]++
-		return judgeOutcome(res, nil, true, "invalid input ("+p.Invalid+") args="+fmt.Sprintf("%q", sc.Inv.Args), false)
+		if v := judgeOutcome(res, nil, true, "invalid input ("+p.Invalid+") args="+fmt.Sprintf("%q", sc.Inv.Args), false); v != nil {
+			return v
+		}
+		if os.Getenv("VERIF_GITSIZER_BIN") != "" && (p.EngineB || fnv64(sc.Hash())%2 == 0) {
+			// the same command line judged by real processes: real git decides
+			// what its own options make of the invalid input
+			b := *sc
+			b.Plan = Plan{}
+			rb := RunB(&b, site, BOpts{})
+			c.Stats.CLIRuns++
+			c.Stats.FaultsFired["engineB-invalid-input:"+p.Invalid]++
+			return judgeOutcome(rb, nil, true, "engine B: invalid input ("+p.Invalid+") args="+fmt.Sprintf("%q", sc.Inv.Args), true)
+		}
+		return nil
 	case "shallow", "absent":
 		if p.Mode == "absent" && os.Getenv("VERIF_GITSIZER_BIN") != "" && fnv64(sc.Hash())%2 == 0 {
 			// no usable git at all: the real binary with an empty PATH
@@ -921,7 +987,19 @@ func judgeC10(c *Ctx, sc *Scenario) *Violation {
 		}
 		why := fmt.Sprintf("objects removed; needed=%v (%v) ref-target-missing=%v root-unresolvable=%v", needed, ex.MissingNeeded, refBroken, rootBroken)
 		if needed || rootBroken {
-			return judgeOutcome(res, nil, true, why, false)
+			if v := judgeOutcome(res, nil, true, why, false); v != nil {
+				return v
+			}
+			if os.Getenv("VERIF_GITSIZER_BIN") != "" && fnv64(sc.Hash())%2 == 0 {
+				// real git on the same damaged object store
+				b := *sc
+				b.Plan = Plan{}
+				rb := RunB(&b, site, BOpts{})
+				c.Stats.CLIRuns++
+				c.Stats.FaultsFired["engineB-missing-reachable-object"]++
+				return judgeOutcome(rb, nil, true, "engine B: "+why, true)
+			}
+			return nil
 		}
 		if refBroken {
 			// git's own for-each-ref decides: either outcome is legal, but
@@ -1013,7 +1091,7 @@ func judgeOneshot(c *Ctx, sc *Scenario, site *Site, base []byte, engineB bool) *
 }
 
 func init() {
-	Register(&Prop{ID: "C10", Check: checkC10, Replay: judgeC10,
+	Register(&Prop{ID: "C10", Prefix: c10Prefix, Check: checkC10, Replay: judgeC10,
 		Rule:       "fault-free baseline, then (a) enumeration: for small generated worlds every output offset of each of the four streaming git commands x {exit 1, exit 128, SIGKILL, SIGPIPE} (all four at offsets 0 and end, rotating in between), 'fails after complete output' x 8 statuses, and death after k stdin lines; (b) exploration: 1-3 random faults combined with chunking / delays / stalls, one-shot git command failures through the proxy (real processes), invalid option values and ROOTs, shallow and absent repositories, removed objects; a sample of single faults is mirrored on the real binary behind the proxy (engine B). non-trivial: the fault actually fired (the peer reached the fault point / the proxy rule matched / the removed object was needed); distinct by scenario hash",
 		Components: componentsA})
 }
